@@ -22,7 +22,12 @@ class FCtx(object):
         self.node = fref.node
         self.cls = fref.cls
         self.module = fref.module
-        self.ex = T.extract(fref.node, inliner=self._make_inliner(model, fref))
+        def resolver(name, m=fref.module):
+            try:
+                return model._module_const(m, name)
+            except Exception:
+                return None
+        self.ex = T.extract(fref.node, inliner=self._make_inliner(model, fref), const_resolver=resolver)
         self.events = self.ex.events
         self.inlined = list(self.ex.inlined)
         # spelling-independent forms (string building, sort keys) for every term the rules look at
@@ -131,7 +136,25 @@ class FCtx(object):
                     # a method overridden in a subclass is dispatched dynamically: do not inline
                     if any(func[2] in c.methods and c is not lk[0] for c in model.subclasses(fref.cls)):
                         target = None
-            if target is None or target.qname in KNOWN_FUNCS or target.node is fref.node or generator(target.node):
+            via_super = False
+            if func[0] == "attr" and func[1][0] == "call" and func[1][1] == ("global", "super") and fref.cls is not None \
+                    and func[2] != "__init__" and selfname is not None:
+                # super(K, self).m(...): the next definition of m along the MRO -- a delegation, inlined whether known or not
+                mro = fref.cls.mro()
+                start = fref.cls
+                sargs = func[1][2]
+                if sargs and sargs[0][0] == "global":
+                    r0 = model.resolve_name(fref.module, sargs[0][1])
+                    if r0 and r0[0] == "class":
+                        start = r0[1]
+                if start in mro:
+                    for c in mro[mro.index(start) + 1:]:
+                        if func[2] in c.methods and func[2] not in c.properties:
+                            target = FuncRef(c.module, c, c.methods[func[2]])
+                            first = ("param", selfname)
+                            via_super = True
+                            break
+            if target is None or (target.qname in KNOWN_FUNCS and not via_super) or target.node is fref.node or generator(target.node):
                 return None
             if target.node.decorator_list and any((dotted(d) or "") not in ("staticmethod",) for d in target.node.decorator_list):
                 return None
